@@ -352,6 +352,8 @@ def printable(t):
     on partial strings whose tail is an atom other than []."""
     k = t[0]
     if k == "cmp":
+        if t[1] == "." and len(t[2]) == 2 and t[2][1][0] == "atom" and t[2][1] != NIL:
+            return False          # '.'(H, atom) in functional notation is the same list cell
         return all(printable(a) for a in t[2])
     if k == "lst":
         return all(printable(a) for a in t[1]) and printable(t[2]) and not (t[2][0] == "atom" and t[2] != NIL)
@@ -1193,6 +1195,23 @@ def run_impl(cases):
             if not a.startswith("{"):
                 bad[a[:60]] = bad.get(a[:60], 0) + 1
         print("first pass: %d to retry; non-answers: %r" % (len(again), bad))
+    # a panic / crash / watchdog early in a worker costs all later cases of that worker their
+    # helper program: those are first re-run in bulk, exactly like the first pass
+    for bulk in (1, 2):
+        if len(again) < 40:
+            break
+        chunks = [[] for _ in range(jobs)]
+        # cases that did not answer for a reason of their own go last in their chunk
+        lost = [c for c in again if "existence_error" in res.get(c["id"], "missing") or res.get(c["id"], "missing") == "missing"]
+        own = [c for c in again if c not in lost]
+        for i, c in enumerate(lost + own):
+            chunks[i % jobs].extend(c["impl"])
+        with ThreadPoolExecutor(max_workers=jobs) as ex:
+            for r in ex.map(lambda ch: core.run_impl([load("bulk%d.%d" % (bulk, ch[0]))] + ch[1]) if ch[1] else {},
+                            list(enumerate(chunks))):
+                res.update(r)
+        RETRY_STATS["bulk_rerun%d" % bulk] = len(again)
+        again = [c for c in again if needs_retry(res.get(c["id"], "missing"))]
     # retries: 2 workers with a 30 s watchdog, then one by one with a 60 s watchdog (a loaded host
     # makes trivial goals hit the default 10 s watchdog); the last stage is budgeted, what is
     # left over is counted as infrastructure_skipped, never as a finding
